@@ -6,6 +6,9 @@
 (*   run A  chartutil.ProcessDependencies -> ToRenderValues -> engine.Render:*)
 (*          the set of chart instances whose probe template was rendered and *)
 (*          the .Values each probe saw;                                      *)
+(*   run D  engine.Render alone on the processed chart with the RAW user      *)
+(*          values: what the engine's scoping hands to each chart when a      *)
+(*          subchart has no values table of its own;                          *)
 (*   run B  action.Install as `helm template --include-crds` runs it: the    *)
 (*          instances that contributed a manifest document, a hook, a CRD, a *)
 (*          NOTES.txt, and whether the schema gate rejected and whom it named.*)
@@ -78,6 +81,9 @@ Checks(o) ==
     Chk("C11_Rendered", o.aok /\ Rend = Tpl(E), en, o.aok /\ Rend = Tpl(EC)),
     \* own values: exactly those destined for the chart; nothing of a parent or sibling; no defaults of a disabled dependency
     Chk("C11_ScopeOwn", o.aok => \A P \in Both : D!ScopeOwnOK(c, E, P, SeenAt(P)), sc, o.aok /\ SeenAsCode),
+    \* the engine's own scoping (run D: engine.Render on raw user values, nothing coalesced): a chart is handed the table
+    \* under its name in its parent's scope and nothing else - without such a table it sees nothing, never the parent's values
+    Chk("C11_EngineScope", o.dok /\ \A r \in Rng(o.seenraw) : Rng(r.leaves) = D!Sub(D!UserVals(c), r.P), "", FALSE),
     \* globals flow down, the ancestor's setting wins
     Chk("C11_ScopeGlobal", o.aok => \A P \in Both : D!ScopeGlobOK(c, P, SeenAt(P)), sc, o.aok /\ SeenAsCode),
     \* a disabled dependency brings no schema check; an enabled one with violated schema is named
